@@ -254,6 +254,7 @@ class Gen:
         self.fired = {}           # rule -> count
         self.functions = []       # dicts: key, mode, props, file, line
         self.dropped = {"tracing": 0, "comments": True}
+        self.unspecified = {}
         self.crate_consts = set()
 
     # -- sources
@@ -470,7 +471,9 @@ class Gen:
                     raise GenError(f"{key}: unsupported construct `{fm.group(0)}`: accepted by the verifier without a specification, its result would be unconstrained")
             m = UNSPECIFIED_ADAPTER.search(code_only)
             if m:
-                raise GenError(f"{key}: unsupported construct `{m.group(0)}...)`: an iterator adapter over a closure, whose result the verifier leaves unspecified")
+                # the verifier treats the result as an arbitrary value: a proof that goes through holds for the real value too,
+                # a failure in this function may be an artefact - it is reported as UNDECIDED by the runner
+                self.unspecified[key] = f"`{m.group(0)}...)`: an iterator adapter over a closure, whose result the verifier leaves unspecified"
         if body2.count("\n") != body.count("\n"):
             origins = origins + [None] * (body2.count("\n") - body.count("\n"))
         if not body2.endswith("\n"):
